@@ -684,6 +684,32 @@ def chan_fail_save(spec, ranked, queries, params, tmp, ref):
     return viol, raised
 
 
+PROBES = ("negative", "float", "str-elem", "len+1", "bool")
+
+
+def chan_probe_impacts(spec, ranked, queries, params, tmp, ref):
+    """NOT judged and not counted (hand-made inputs that no export produces are outside the property's wording);
+    the outcome is only tallied in extra["failure_points"]: does import_impacts look at the vector inside the file,
+    does the list interface take bools"""
+    from inference.preocf import RandomMinCRepPreOCF
+
+    o, bb = _crep_parts(spec, ranked, ref)
+    X = list(o._impacts)
+    how = params["how"]
+    try:
+        if how == "bool":
+            RandomMinCRepPreOCF.init_with_impacts_list(bb, [bool(x) for x in X])
+        else:
+            data = {"impacts": _bad_vector(how, X), "conditionals_count": len(X), "ranking_system": "random_min_c_rep", "signature": list(spec["signature"])}
+            path = os.path.join(tmp, "handmade.json")
+            with open(path, "w") as fd:
+                json.dump(data, fd)
+            o.import_impacts(path)
+        return [], None
+    except Exception as e:  # noqa
+        return [], _exc(e)
+
+
 FAIL_META = ("tuple-key", "circular", "lambda-json", "set-json", "lambda-pickle", "nodir", "isdir", "bad-fmt")
 
 
@@ -870,7 +896,7 @@ SIMPLE = {
     "impacts-invalid": chan_impacts_invalid,
     "meta-file": chan_meta_file,
 }
-FAILING = {"fail-save": chan_fail_save, "fail-meta": chan_fail_meta}
+FAILING = {"fail-save": chan_fail_save, "fail-meta": chan_fail_meta, "probe-impacts": chan_probe_impacts}
 FRESH = {"ocf-fresh": prep_ocf_fresh, "impacts-fresh": prep_impacts_fresh, "meta-fresh": prep_meta_fresh}
 
 META_VARIANTS = [
@@ -923,6 +949,8 @@ def _plan(spec, states, rng, tier):
         for b in ("len+1", "len-1"):
             st = some()
             plan.append(("impacts-invalid", st, {"bad": b, "mode": "file", "order": _order(spec, st, 12)}))
+        for how in PROBES:
+            plan.append(("probe-impacts", [], {"how": how}))
     extra = lambda: dict(_rnd_payload(rng), precise=rng.random() * 10 ** rng.randint(-5, 5), nested={"l": [1, [2.5, {"d": None}]], "t": True})  # noqa
     for v in META_VARIANTS:
         plan.append(("meta-file", some(), dict(v, pathlib=rng.random() < 0.5, extra_meta=extra())))
@@ -986,15 +1014,17 @@ def _obj_case(item):
     content = _content(spec, ref)
     with tempfile.TemporaryDirectory(prefix="c20_") as tmp:
         for channel, ranked, params, viols, note in _execute(spec, queries, _plan(spec, states, rng, tier), tmp, ref):
+            if channel in FAILING:
+                key = f"{channel}[{params['how']}]:" + ("raised" if note else "no error")
+                out["notes"][key] = out["notes"].get(key, 0) + 1
+            if channel.startswith("probe-"):
+                continue  # tallied only, neither judged nor counted
             out["evaluations"] += 1
             if _nontrivial(spec, ranked, channel, params):
                 pkey = _canon({k: v for k, v in params.items() if k not in ("order",)})
                 out["fingerprints"].append(hashlib.sha1(_canon([spec["kind"], content, sorted(ranked), channel, pkey]).encode()).hexdigest()[:16])
             for k, e, ob in viols:
                 out["violations"].append(_viol(k, spec, ranked, channel, queries, params, e, ob))
-            if channel in FAILING:
-                key = f"{channel}[{params['how']}]:" + ("raised" if note else "no error")
-                out["notes"][key] = out["notes"].get(key, 0) + 1
     return out
 
 
